@@ -90,6 +90,9 @@ pub enum Op {
     /// flush + quiescent sync point for C05
     SyncPoint,
     Check,
+    /// look at the live image and drive the allocator into a multi-slice
+    /// allocation that meets fragmentation (world.rs do_alloc_stress)
+    AllocStress,
 }
 
 #[derive(Serialize, Deserialize, Clone, Debug, PartialEq)]
@@ -243,8 +246,21 @@ pub fn gen_layer(rng: &mut Rng, o: &GenOpts, cluster_bits: u32, top: bool, idx_i
         // refcounts and 512-byte clusters: refcount table) capacity
         let rb_cover = cs * (cs * 8 / (1 << refcount_order));
         let rt_cover = rb_cover * (cs / 8);
+        GROWTH_FULL.with(|f| f.set(false));
         vsize = if rt_cover <= (4 << 20) && rng.chance(2, 3) {
-            (rt_cover + rt_cover / 4 + cs * rng.below(64)) / 512 * 512
+            if rng.chance(1, 2) {
+                (rt_cover + rt_cover / 4 + cs * rng.below(64)) / 512 * 512
+            } else {
+                // exactly what the refcount table of a freshly formatted
+                // image covers: the metadata pushes the host file beyond it
+                GROWTH_FULL.with(|f| f.set(true));
+                rt_cover - cs * rng.below(8)
+            }
+        } else if rt_cover <= (16 << 20) && rng.chance(1, 3) {
+            // bigger tables (e.g. 1 KiB clusters, where a table cluster is
+            // larger than a block): outgrown at 8 / 16 MiB of host file
+            GROWTH_FULL.with(|f| f.set(true));
+            rt_cover - cs * rng.below(8)
         } else {
             (rb_cover * rng.range(2, 5) + cs * rng.below(64)).min(4 << 20)
         };
@@ -327,6 +343,8 @@ thread_local! {
     /// (gen_steps, called next, adds the matching phases)
     static FRAG_NOW: std::cell::Cell<bool> = const { std::cell::Cell::new(false) };
     static GROWTH_NOW: std::cell::Cell<bool> = const { std::cell::Cell::new(false) };
+    /// the growth march has to fill the disk without gaps
+    static GROWTH_FULL: std::cell::Cell<bool> = const { std::cell::Cell::new(false) };
 }
 
 pub fn gen_cfg(rng: &mut Rng, o: &GenOpts) -> Cfg {
@@ -341,7 +359,7 @@ pub fn gen_cfg(rng: &mut Rng, o: &GenOpts) -> Cfg {
     let cluster_bits = if o.growth_geometry {
         *rng.pick(&[9u32, 9, 9, 10])
     } else if frag {
-        *rng.pick(&[9u32, 9, 10, 12])
+        *rng.pick(&[9u32, 10, 10, 12, 12])
     } else if wide {
         *rng.pick(&[9u32, 9, 10])
     } else {
@@ -446,7 +464,10 @@ pub fn gen_cfg(rng: &mut Rng, o: &GenOpts) -> Cfg {
     };
     let (l2_cache, rb_cache) = if frag {
         // refcount block slices of one 512-byte block, a handful of them
-        let l2 = l2_cache.or(Some((9, 8 << 9)));
+        // ... and L2 slices of a whole cluster, so that one allocation can
+        // be longer than a refcount-block slice
+        let _ = l2_cache;
+        let l2 = Some((cluster_bits as u8, (rng.range(2, 6) as usize) << cluster_bits));
         (l2, Some((9u8, (rng.range(2, 6) as usize) << 9)))
     } else {
         (l2_cache, rb_cache)
@@ -721,11 +742,28 @@ pub fn gen_steps(rng: &mut Rng, cfg: &Cfg, o: &GenOpts) -> Vec<Step> {
         let vend = cfg.vend();
         let mut pos = 0u64;
         let stride_max = (vend / 8).max(cs * 8);
+        let big = vend > (8 << 20);
         // half of the runs fill the disk nearly gap-free: only then does the
         // host file outgrow the refcount table
-        let jump_one_in = if rng.chance(1, 2) { 3 } else { 12 };
+        let full = GROWTH_FULL.with(|f| f.get());
+        let jump_one_in = if full {
+            u64::MAX
+        } else if big {
+            40
+        } else if rng.chance(1, 2) {
+            3
+        } else {
+            12
+        };
         while pos < vend && steps.len() < 40 {
-            let len = (cs * rng.range(16, 480)).min(vend - pos).min(8 << 20);
+            let n = if big {
+                rng.range(400, 2400)
+            } else if full {
+                rng.range(100, 480)
+            } else {
+                rng.range(16, 480)
+            };
+            let len = (cs * n).min(vend - pos).min(8 << 20);
             steps.push(Step::Seq(Op::Write { off: pos, len: len as u32 }));
             pos += len;
             if rng.chance(1, jump_one_in) {
@@ -752,10 +790,20 @@ pub fn gen_steps(rng: &mut Rng, cfg: &Cfg, o: &GenOpts) -> Vec<Step> {
         if rng.chance(1, 2) {
             steps.push(Step::Seq(Op::Flush));
         }
+        if rng.chance(1, 2) {
+            steps.push(Step::Seq(Op::AllocStress));
+        }
         // holes
         for _ in 0..rng.range(8, 40) {
             let g = rng.below(fill);
-            let n = rng.range(1, 4).min(fill - g);
+            // mostly small holes; some that free a whole refcount-block
+            // slice and more (a later allocation then runs through it)
+            let n = match rng.below(8) {
+                0 => rng.range(70, 300),
+                1 | 2 => rng.range(5, 14),
+                _ => rng.range(1, 4),
+            };
+            let n = n.min(fill - g);
             steps.push(Step::Seq(Op::Discard { off: g * cs, len: n * cs }));
             if rng.chance(1, 12) {
                 steps.push(Step::Seq(Op::Flush));
@@ -766,7 +814,11 @@ pub fn gen_steps(rng: &mut Rng, cfg: &Cfg, o: &GenOpts) -> Vec<Step> {
         }
         // multi-cluster writes into fresh and into discarded places
         for _ in 0..rng.range(4, 16) {
-            let n = rng.range(2, 24);
+            let n = match rng.below(8) {
+                0 => rng.range(90, 400),
+                1 | 2 => rng.range(24, 90),
+                _ => rng.range(2, 24),
+            };
             let g = if rng.chance(1, 2) {
                 fill + rng.below((gcl - fill).max(1))
             } else {
